@@ -11,6 +11,7 @@ Generated files (rewritten only when their content changes, so `make` stays incr
   GenConv.v      the two remap constructions of core_conversion
   GenDtype.v     index dtype selection thresholds of pyflwdir.from_array
   GenFormulas.v  integer index formulas + unit factors + projected distance/area formulas
+  GenCodec.v     from_array / to_array of core_d8 / core_ldd / core_nextxy (tools/gen_codec.py)
   GenFingerprints.v is not generated; fingerprints go to generated/fingerprints.json
 """
 import ast, hashlib, json, os, sys
@@ -382,4 +383,5 @@ if __name__ == "__main__":
     sys.modules.setdefault("gen", sys.modules["__main__"])
     import gen_more  # noqa: F401  (registers more generators)
     import gen_loops  # noqa: F401
+    import gen_codec  # noqa: F401  (raster codecs -> GenCodec.v)
     sys.exit(main())
